@@ -1,7 +1,10 @@
 #!/usr/bin/env python3
 # Probe: C05/C16 transition-table lookups, real text from tz_info/timezone.rs
 import sys, re
-sys.path.insert(0, '/tmp/vprobe')
+import os
+HERE = os.path.dirname(os.path.abspath(__file__))
+OUT = os.environ.get('PROBE_OUT', '/var/tmp')
+sys.path.insert(0, HERE)
 from xprobe import *
 
 T = Src('/repo/src/offset/local/tz_info/timezone.rs')
@@ -126,5 +129,5 @@ fn_txt = emit_fn(sig, body,
 # final Single(offset_after_last): witness k = len
 fn_txt = fn_txt.replace("Ok(MappedLocalTime::Single(offset_after_last))",
     "{ proof { post_single(self.transitions@, self.local_time_types@, local_time.ts as int, offset_after_last, self.transitions@.len() as int); } Ok(MappedLocalTime::Single(offset_after_last)) }")
-open('/tmp/vprobe/tz_unit.rs', 'w').write(PRE + "impl<'a> TimeZoneRef<'a> {\n" + fn_txt + "}\n} // verus!\nfn main() {}\n")
+open(os.path.join(OUT, 'tz_unit.rs'), 'w').write(PRE + "impl<'a> TimeZoneRef<'a> {\n" + fn_txt + "}\n} // verus!\nfn main() {}\n")
 print('ok')
